@@ -374,6 +374,7 @@ Lemma hs_effect_spec up h j ps a ps' a' :
   bal a a' (resting ps) (resting ps') /\ idle_ok ps'.
 Proof.
   unfold hs_effect. intros H I.
+  destruct (h =? 8); [injection H; intros <- <-; split; [apply bal_refl|exact I]|].
   assert (B0 : forall r, bal a (put (vbuf 1) (get (vbuf 1) a)) r r) by (intros r; unfold bal; vlia).
   destruct (find_peer j ps) as [q|] eqn:F.
   2:{ injection H; intros <- <-. split; [apply B0|exact I]. }
